@@ -253,6 +253,7 @@ func (in *Interp) runPath(h *ssa.Function, res *harnessResult) {
 					}
 					res.Aborts[reason]++
 				case fatalStack:
+					in.unwinding = false
 					end = "fatal-stack-overflow"
 					m := in.check(nil, true)
 					if m.Res == "unknown" {
